@@ -56,7 +56,7 @@ fn c14(args: &Args) -> ! {
         v.dedup();
         v
     } else {
-        vec![(1, 1, 2), (1, 2, 3), (1, 4, 3), (2, 4, 3), (2, 2, 3), (3, 2, 4), (2, 1, 3), (1, 4, 103)]
+        vec![(1, 1, 2), (1, 2, 3), (1, 4, 3), (2, 4, 3), (2, 2, 3), (3, 2, 4), (2, 1, 3), (1, 4, 103), (1, 2, 103)]
     };
     let t_start = Instant::now();
     let budget = Duration::from_secs(if thorough { 1200 } else { 40 });
@@ -181,6 +181,8 @@ fn bad_peer(role: &str) -> ConnSpec {
             }
             ConnSpec { chunks: vec![b], closes: false, healthy: false, name: "rude".into(), after_ticks: 0, close_after_ticks: 0, resets: true }
         }
+        // injected fault: the server cannot split this connection's stream (out of descriptors right after accept)
+        "nosplit" => ConnSpec { chunks: vec![req(Kind::Echo, Flag::None, "NOSPLIT")], closes: true, healthy: false, name: "nosplit".into(), after_ticks: 0, close_after_ticks: 0, resets: false },
         "garbage" => ConnSpec { chunks: vec![b"\xff\xfe\0".to_vec(), b"[[[[\0".to_vec()], closes: false, healthy: false, name: "garbage".into(), after_ticks: 0, close_after_ticks: 0, resets: false },
         _ => panic!("role"),
     }
@@ -233,7 +235,7 @@ fn run_family(args: &Args, rep: &mut Report, specs: Vec<(String, ListenSpec)>, f
                 }
                 if let Some((sig, what)) = &x.violation {
                     found.push((sig.clone(), what.clone(), choices));
-                } else if !x.panics.is_empty() {
+                } else if !x.panics.is_empty() && !spec.conns.iter().any(|c| c.name == "nosplit") {
                     found.push((format!("{}/panic", prop), x.panics.join("; "), choices));
                 }
             };
@@ -331,6 +333,11 @@ fn c13_specs(thorough: bool) -> Vec<(String, ListenSpec)> {
         v.push((format!("rude-rude-H{}", va), lspec("C13", Mode::Independent, 1, 3, 0, false, vec![bad_peer("rude"), bad_peer("rude"), healthy("A", va)])));
     }
     v.push(("H-rude-H".into(), lspec("C13", Mode::Independent, 1, 2, 0, false, vec![healthy("A", 1), bad_peer("rude"), healthy("B", 0)])));
+    // a connection the server cannot even set up (its stream cannot be split): the worker that met it must stay
+    // available, a later long-lived connection and a healthy one next to it are both served below the limit
+    v.push(("nosplit-idle-H".into(), lspec("C13", Mode::Independent, 1, 2, 0, false, vec![bad_peer("nosplit"), bad_peer("idle"), healthy("A", 0)])));
+    v.push(("nosplit-H".into(), lspec("C13", Mode::Independent, 1, 1, 0, false, vec![bad_peer("nosplit"), healthy("A", 1)])));
+    v.push(("H-nosplit-idle-H".into(), lspec("C13", Mode::Independent, 1, 3, 0, false, vec![healthy("A", 0), bad_peer("nosplit"), bad_peer("idle"), healthy("B", 0)])));
     // a pool that has to grow, and one that starts big
     v.push(("HH-grow".into(), lspec("C13", Mode::Independent, 1, 2, 0, false, vec![healthy("A", 1), healthy("B", 2)])));
     v.push(("HH-init2".into(), lspec("C13", Mode::Independent, 2, 4, 0, false, vec![healthy("A", 1), healthy("B", 2)])));
@@ -350,7 +357,7 @@ fn c13_specs(thorough: bool) -> Vec<(String, ListenSpec)> {
 }
 
 fn c13(args: &Args) -> ! {
-    let mut rep = Report::new("C13", "the real listen() loop + thread pool + handle() over in-memory streams under the controlled scheduler: 2..4 connections with roles {healthy (3 pipelined tagged requests in 1-2 chunks), idle, half-open, malformed, garbage, rude (pipelines requests and vanishes: later server writes fail)}, every interleaving of listen thread, workers and environment actions (connect / deliver chunk / close) within the deviation bound (quick 2, and 1 for the scenarios with three connections; thorough 3); oracle: each healthy connection receives byte-for-byte its solo reply stream; non-trivial = distinct complete executions");
+    let mut rep = Report::new("C13", "the real listen() loop + thread pool + handle() over in-memory streams under the controlled scheduler: 2..4 connections with roles {healthy (3 pipelined tagged requests in 1-2 chunks), idle, half-open, malformed, garbage, rude (pipelines requests and vanishes: later server writes fail), nosplit (injected fault: the server cannot split the accepted stream)}, every interleaving of listen thread, workers and environment actions (connect / deliver chunk / close) within the deviation bound (quick 2, and 1 for the scenarios with three connections; thorough 3); oracle: each healthy connection receives byte-for-byte its solo reply stream; non-trivial = distinct complete executions");
     install_hooks();
     let specs = c13_specs(args.thorough());
     if args.replay.is_some() {
